@@ -261,12 +261,12 @@ CHECKS["C09"] = dict(
 # what later rounds added to the checks (appended to the texts above)
 EXTRA = {
     "C01": "Which announcement's difficulty / extranonce a share is judged by (\"in force when that job was announced\") is checked too: "
-           "the validator harness of C19 (every announcement with its own difficulty, the verdict names the job it used) runs under this check and is judged by Spec/C19.",
+           "the validator harness of C19 (every announcement with its own difficulty, the verdict names the job it used) runs under this check and is judged by Spec/C19. Pools may grant a narrower version mask than the miner asked for; the verdict of every submit of whole sessions is judged as well (the share must satisfy the mask the pool granted).",
     "C02": "Proof of work is real in the sessions: the fake miner mines shares (difficulties of 1..3 units of 2^-16) against what the pools announced, every submit "
-           "carries the share's difficulty against every job data it could be hashed with (measured by the harness's own SHA-256), and model and monitor decide from that table.",
+           "carries the share's difficulty against every job data it could be hashed with (measured by the harness's own SHA-256), and model and monitor decide from that table. The lifecycle harness (real TCP handler) adds histories in which the pool of a contract task fails and is re-dialled before and after the switch (after_reconnect).",
     "C03": "Sessions run with really mined shares (see C02).",
-    "C04": "Ledger amounts are non-zero: accepted shares are really mined at fractional pool difficulties (see C02), so miner, worker-name, destination and task credit are compared in value, not only in count.",
-    "C05": "Besides single hostile lines: every sequence of up to four well-formed requests (configure / subscribe / authorize / submit, a subscribe answered late) in arbitrary protocol order, next to a well-behaved connection.",
+    "C04": "Ledger amounts are non-zero: accepted shares are really mined at fractional pool difficulties (see C02), so miner, worker-name, destination and task credit are compared in value, not only in count. Task credit is also followed across a reconnect of the task's destination (lifecycle harness, after_reconnect).",
+    "C05": "Besides single hostile lines: every sequence of up to four well-formed requests (configure / subscribe / authorize / submit, a subscribe answered late) in arbitrary protocol order, next to a well-behaved connection. The random sessions of well-formed events (C02-C04) are run under this check for crashes; a crash replay names the op being executed.",
     "C06": "What virtual time cannot exhibit runs against the wall clock: a destination change still in its handshake when the reconnect wait of a failed pool ends (four timings in parallel, judged by monitorRT; a complaint counts only if it repeats).",
     "C07": "A second, finer model (Model/SchedSlow.lean: the goroutine's position explicit, newTaskSignal as a one-token channel) covers destination changes that take time: add / remove / share / time arrive "
            "while the scheduler is inside SetDest. Theorems for every history of events and releases: every reachable state is well-formed, a SetDest is entered only for a live queued task, a removed contract is never "
@@ -274,11 +274,18 @@ EXTRA = {
     "C08": "Terms updates (purchaseInfoUpdated; new terms of a running contract wait for its close), events without a handler and node failures (a refused eth_call under every event) are ops of model, driver and harness; "
            "history-level theorems (history_inv, history_allocates_only_live over every event list, restart point and chain answer), repurchase_under_new_terms, terms_update_while_running, rpc_failure_is_harmless; the monitor also requires the speed and length of the purchase.",
     "C09": "The monitor also requires that the watcher's account lists every connected miner that is directed to the contract's destination (otherwise it can neither be shed nor released); a seam pauses the scheduler inside the end notification of partial jobs, "
-           "and a generator makes the whole miner leave so that the watcher wants whole miners at the instant a partial job ends.",
-    "C13": "Tasks are told of the disconnect only once the miner no longer counts as connected (probe inside the notification).",
-    "C16": "The assumption that a buyer / validator controller returns once its purchase ended is checked against the real ControllerBuyer (C10's harness runs under this check).",
+           "and a generator makes the whole miner leave so that the watcher wants whole miners at the instant a partial job ends. Late fleets (the contract is bought with too little hashrate, large miners join later): what earlier cycles fell short must be made up within 4 + 2 lag/(spare x cycle) cycles. Two known findings (the +-1000 GH/s dead band of adjustHashrate on contracts smaller than the band) run as corpus histories with model witnesses small_miners_starve_then_flood and whole_miners_overstay.",
+    "C13": "Tasks are told of the disconnect only once the miner no longer counts as connected (probe inside the notification). Pools that fail by sending a non-stratum line and keeping the socket open, and peers that are no stratum miners at all (hang up, HTTP, TLS hello), are ops of the lifecycle histories.",
+    "C16": "The assumption that a buyer / validator controller returns once its purchase ended is checked against the real ControllerBuyer (C10's harness runs under this check). Node failures are ops: a refused call during the start-up scan or in a clone-factory event handler must end the manager (so that its supervisor restarts it) and every controller must return.",
     "C17": "Several miners, one after the other, through one real TCP handler (one configured destination): the name and password the pool is presented with vs Model/Cred on the configured destination.",
     "C18": "Bad payloads go through the real seller controller (C08's world) and are compared with the fail-closed model; every GET route of the real HTTP engine (built around a configuration loaded from flags / environment with marker secrets) is requested and searched for the markers.",
+    "C10": "The same contract bought again in the same process (a late share of the ended purchase, a pause longer than the share timeout): a share-timeout verdict needs a silence longer than the timeout within that purchase. "
+           "The default start-up grace period is checked through the real configuration defaults for a grid of configured cycles.",
+    "C11": "The vetting threshold the eligibility test relies on is followed through the real TCP handler (MINER_VETTING_SHARES different from the cache size); the remainder clause also under disconnects in the middle of a call.",
+    "C12": "The read path of a stratum connection is included: a cancellation placed between the start of a Read and the clearing of its deadline (hooked connection) returns the cancellation and takes nothing.",
+    "C14": "Read streams contain answers as well (result lines built by the package's constructors, among them result null with an error); a cancellation is also placed inside SetReadDeadline (readx).",
+    "C15": "Several connections through one real TCP handler: the account the pool is asked to authorise for a connection is Model/Cred's for the configured destination and that connection's miner name, whatever earlier connections did.",
+    "C20": "The mean a running seller contract reports is compared with the work that reached its destination over the time since it started delivering (delivery harness, est lines).",
 }
 for _pid, _add in EXTRA.items():
     CHECKS[_pid]["text"] += " " + _add
